@@ -34,7 +34,7 @@ seeds = []
 for v in vseeds:
     seeds += [derive_seed(v, prop, i) % (1 << 40) for i in range(n)]
 t = time.time()
-recs = run_many(run, seeds, workers=int(os.environ.get("W", "16")), wall=240, batch=25, reset=reset_exo_globals)
+recs = run_many(run, seeds, workers=int(os.environ.get("W", "16")), wall=90, batch=25, reset=reset_exo_globals)
 c = Counter(); ex = {}; st = Counter()
 for r in recs:
     st[r["status"]] += 1
